@@ -172,3 +172,43 @@ package db
 //@   before[evaluates-winner] call getChannelsAndAccess#1 $2 == doc && $3 == curBody && $3 != nil && $4 == metaMap && $5 == callres(GetRevTreeID, 3, 0)
 //@   ensures[not-swapped]     called(getChannelsAndAccess, 1) ==> channelSet == callres(getChannelsAndAccess, 1, 0) && access == callres(getChannelsAndAccess, 1, 1) && roles == callres(getChannelsAndAccess, 1, 2) && syncExpiry == callres(getChannelsAndAccess, 1, 3) && err == callres(getChannelsAndAccess, 1, 5)
 //@   ensures[body-missing]    isNilErr(err) && !called(getChannelsAndAccess, 1) ==> channelSet == nil && access == nil && roles == nil
+
+// ---- after a write changed grants: EVERY affected principal is invalidated ----
+// Ghost record of the names for which the invalidation call was made (access names as found in the document's access
+// map, i.e. "role:NAME" for roles, for channel access; user names for role access).
+//@ ghost var c03InvalChan set[string]
+//@ ghost var c03InvalRolesOf set[string]
+
+// TRUSTED, ghost bookkeeping only (same device as cwC18's invalUserRolesAndChannels / invalRoleChannels in
+// zz_verif_c18.go). invalUserOrRoleChannels strips the "role:" prefix and makes one call,
+// authr.InvalidateChannels(name, isUser, {this collection}, invalSeq); invalUserRoles makes one call,
+// authr.InvalidateRoles(username, invalSeq) (both under contract in auth/zz_verif_c11.go + the C03 lines there: the
+// sequence is recorded on exactly the named collection of the principal's document). The ghost set records the name.
+// The real effects (a fresh Authenticator, the principal's document in the bucket) are invisible to
+// MarkPrincipalsChanged, which only reads its two name slices and db.user. NOT assumed: that the invalidation
+// succeeded -- its error is logged and dropped by these helpers.
+//@ func DatabaseCollection.invalUserOrRoleChannels
+//@   trusted
+//@   modifies c03InvalChan
+//@   ensures[recorded] c03InvalChan == union(old(c03InvalChan), single(name))
+//@ func DatabaseContext.invalUserRoles
+//@   trusted
+//@   modifies c03InvalRolesOf
+//@   ensures[recorded] c03InvalRolesOf == union(old(c03InvalRolesOf), single(username))
+
+// MarkPrincipalsChanged: every principal whose channel grants changed and every user whose role grants changed gets
+// its invalidation call, with the sequence of the write -- whatever the position of the writing user in the lists
+// (a grant or a revoke takes effect for each of them by their next request).
+//@ func DatabaseCollectionWithUser.MarkPrincipalsChanged
+//@   requires db != nil
+//@   modifies c03InvalChan, c03InvalRolesOf, db.user
+//@   before[chan-seq]  call invalUserOrRoleChannels $3 == invalSeq
+//@   before[roles-seq] call invalUserRoles $3 == invalSeq
+//@   ensures[channels-all] forall i int :: {changedPrincipals[i]} 0 <= i && i < len(changedPrincipals) ==> (changedPrincipals[i] in c03InvalChan)
+//@   ensures[roles-all]    forall i int :: {changedRoleUsers[i]} 0 <= i && i < len(changedRoleUsers) ==> (changedRoleUsers[i] in c03InvalRolesOf)
+//@   ensures[monotone]     subset(old(c03InvalChan), c03InvalChan) && subset(old(c03InvalRolesOf), c03InvalRolesOf)
+//@   loop 1 invariant[so-far]   forall i int :: {changedPrincipals[i]} 0 <= i && i <= #index ==> (changedPrincipals[i] in c03InvalChan)
+//@   loop 2 invariant[so-far]   forall i int :: {changedPrincipals[i]} 0 <= i && i <= #index1 + 1 && i < len(changedPrincipals) ==> (changedPrincipals[i] in c03InvalChan)
+//@   loop 3 invariant[chan-all] forall i int :: {changedPrincipals[i]} 0 <= i && i < len(changedPrincipals) ==> (changedPrincipals[i] in c03InvalChan)
+//@   loop 3 invariant[so-far]   forall i int :: {changedRoleUsers[i]} 0 <= i && i <= #index ==> (changedRoleUsers[i] in c03InvalRolesOf)
+//@   loop * invariant[monotone] subset(old(c03InvalChan), c03InvalChan) && subset(old(c03InvalRolesOf), c03InvalRolesOf)
